@@ -19,4 +19,8 @@ def main():
             out = b.run([("w", "A", "de", '{"x":"ab"}'), ("w", "A", "de", '{"x":"abc"}')])
             assert out[0]["ok"] and not out[1]["ok"], out
         b.cleanup()
+    from .props import C04
+    C04.build_origin(C04.universes("quick")[:3], "warm")
+    from .props import C15
+    C15.warm()
     log("batch target warmed")
